@@ -104,6 +104,9 @@ type Source struct {
 	CPs      []CPDef
 	IOAtt    []IOEnd
 	Rsize    int
+	// iomode given on `%meta bmdef global`: the mode of mov to/from an IO port in every section that does not
+	// state its own (the most specific statement wins: section before global)
+	GlobalIOMode string
 }
 
 var reSpace = regexp.MustCompile(`\s+`)
@@ -176,7 +179,7 @@ func ParseSource(text string) (*Source, error) {
 			if len(w) < 2 || curSec != nil || curMac != nil {
 				return nil, fmt.Errorf("line %d: bad %%section", ln)
 			}
-			curSec = &Section{Name: w[0], Kind: w[1], IOMode: "async"}
+			curSec = &Section{Name: w[0], Kind: w[1]}
 			if len(w) > 2 {
 				kv := parseKV(strings.Join(w[2:], ","))
 				if v, ok := kv["iomode"]; ok {
@@ -203,11 +206,16 @@ func ParseSource(text string) (*Source, error) {
 				}
 				s.IOAtt = append(s.IOAtt, IOEnd{Link: w[1], CP: kv["cp"], Type: kv["type"], Index: idx})
 			case "bmdef":
-				r, err := strconv.Atoi(kv["registersize"])
-				if err != nil {
-					return nil, err
+				if rs, ok := kv["registersize"]; ok {
+					r, err := strconv.Atoi(rs)
+					if err != nil {
+						return nil, err
+					}
+					s.Rsize = r
 				}
-				s.Rsize = r
+				if v, ok := kv["iomode"]; ok {
+					s.GlobalIOMode = v
+				}
 			default:
 				return nil, fmt.Errorf("line %d: unsupported meta %s", ln, w[0])
 			}
@@ -520,7 +528,11 @@ func Flatten(src *Source, bugs BugFlags) *Flat {
 				softSym = true
 				continue
 			}
-			fi, rej := resolveInstr(l, sec.IOMode, labels, dataSyms, maxv, src.Config)
+			iomode := sec.IOMode
+			if iomode == "" {
+				iomode = src.GlobalIOMode
+			}
+			fi, rej := resolveInstr(l, iomode, labels, dataSyms, maxv, src.Config)
 			if rej != "" {
 				if strings.HasPrefix(rej, "undefined label") && lostLabels {
 					softSym = true
@@ -633,6 +645,9 @@ func resolveInstr(l rawLine, iomode string, labels, dataSyms map[string]int, max
 	case "nop()":
 		return mk("nop", false)
 	case "mov(out,reg)":
+		if iomode == "" {
+			return FlatInstr{}, "mov to an output without any iomode"
+		}
 		if iomode == "sync" {
 			return mk("r2owa", true, 1, 0)
 		}
@@ -640,6 +655,9 @@ func resolveInstr(l rawLine, iomode string, labels, dataSyms map[string]int, max
 	case "r2o(reg,out)", "r2owa(reg,out)":
 		return mk(l.op, false, 0, 1)
 	case "mov(reg,in)":
+		if iomode == "" {
+			return FlatInstr{}, "mov from an input without any iomode"
+		}
 		if iomode == "sync" {
 			return mk("i2rw", true, 0, 1)
 		}
